@@ -40,6 +40,7 @@ type Script struct {
 	Cap   uint64      `json:"cap"`  // global allowance of spawned events
 	Init  []Init      `json:"init"`
 	Hooks bool        `json:"hooks"` // record through Before/AfterEvent hooks (the hasHooks path)
+	T0    uint64      `json:"t0"`    // SetCurrentTime(T0) after the initial Schedule calls (0: none)
 }
 
 // Ent is an event as observed.
@@ -57,6 +58,7 @@ type Step struct {
 	Now   uint64 `json:"now"`
 	Sched []Ent  `json:"sched"`
 	OK    bool   `json:"ok"`
+	Hk    uint64 `json:"hk"` // calls seen for this event, as digits: 1 BeforeEvent, 2 handler, 3 AfterEvent
 }
 
 // Seg is the observation of one Run / RunUntil call.
@@ -110,6 +112,7 @@ func (h *handler) Handle(e timing.Event) error {
 		w.steps = append(w.steps, Step{Ev: toEnt(x), Now: uint64(w.Eng.CurrentTime()), Sched: []Ent{}})
 		idx = len(w.steps) - 1
 	}
+	w.steps[idx].Hk = w.steps[idx].Hk*10 + 2
 	if x.Bud != 0 && h.id < uint64(len(w.s.Prog)) {
 		alts := w.s.Prog[h.id]
 		if len(alts) > 0 {
@@ -147,11 +150,12 @@ func (k *hook) Func(ctx hooking.HookCtx) {
 	}
 	switch ctx.Pos {
 	case timing.HookPosBeforeEvent:
-		w.steps = append(w.steps, Step{Ev: toEnt(x), Now: uint64(w.Eng.CurrentTime()), Sched: []Ent{}})
+		w.steps = append(w.steps, Step{Ev: toEnt(x), Now: uint64(w.Eng.CurrentTime()), Sched: []Ent{}, Hk: 1})
 	case timing.HookPosAfterEvent:
 		i := len(w.steps) - 1
 		if i >= 0 && w.steps[i].Ev.UID == x.ID {
 			w.steps[i].OK = true
+			w.steps[i].Hk = w.steps[i].Hk*10 + 3
 		}
 	}
 }
@@ -192,6 +196,9 @@ func NewWorld(s Script) *World {
 	for _, i := range s.Init {
 		w.Eng.Schedule(mkEv(i.T, i.H, i.Sec, i.Bud, w.next))
 		w.next++
+	}
+	if s.T0 != 0 {
+		w.Eng.SetCurrentTime(timing.VTimeInPicoSec(s.T0))
 	}
 	return w
 }
@@ -275,7 +282,7 @@ func CoqEnts(es []Ent) string {
 func CoqSteps(st []Step) string {
 	s := make([]string, len(st))
 	for i, x := range st {
-		s[i] = hx.App("St", CoqEnt(x.Ev), hx.N(x.Now), CoqEnts(x.Sched), hx.B(x.OK))
+		s[i] = hx.App("St", CoqEnt(x.Ev), hx.N(x.Now), CoqEnts(x.Sched), hx.B(x.OK), hx.N(x.Hk))
 	}
 	return hx.L(s)
 }
